@@ -502,9 +502,17 @@ def run(ctx: Ctx):
         check_case(ctx, drv, text, opts, feats, seen_sig)
         if ci < 2:
             ctx.sample({"options": opts, "features": feats, "pdb_head": text.splitlines()[:3]})
+    # every residue type once more with a water packed against its side chain and debumping switched on
+    # (a torsion the topology should not offer — a ring closed through the backbone — shows only when that type bumps)
+    for ci in range(ctx.scale(20, 200)):
+        text, opts, feats = gen_case(rng, G.AA3[ci % len(G.AA3)], kind="bump")
+        if "hydrogenated" in feats["kind"]:
+            continue
+        feats["mode"] = "default"
+        check_case(ctx, drv, text, opts[:1], feats, seen_sig)
     # crowded long side chains: debumping goes several rounds over the torsions of one residue
     # (chi-1, chi-2, chi-1, chi-2 …), so a torsion is used again after another one has moved its axis
-    for ci in range(ctx.scale(8, 250)):
+    for ci in range(ctx.scale(20, 250)):
         target = ["LEU", "LYS", "ARG", "MET", "GLN", "GLU", "ILE", "PHE", "TYR", "ASN"][ci % 10]
         _f, res = G.window(rng, rng.choice([3, 4]), must_have=target)
         G.set_chain(res, "A", 1)
